@@ -853,9 +853,11 @@ func lookupIfaceMethod(T types.Type, name string) *types.Func {
 
 // evalPure runs a (side-effect free) /repo function on the state and merges
 // the results of its paths into one term.
+var pureStats = map[string]int{}
+
 func (x *Exec) evalPure(s *State, fn *ssa.Function, args []*Val) *Val {
 	// memo: the same pure call on the same state version (macros repeat sub-expressions many times)
-	key := fmt.Sprintf("%d|%d|%d|%s", s.id, s.ver, len(s.pc), fn.String())
+	key := fmt.Sprintf("%d|%d|%s", s.id, s.ver, fn.String())
 	for _, a := range args {
 		key += "|" + a.String()
 		if a.Ptr != nil {
@@ -863,17 +865,63 @@ func (x *Exec) evalPure(s *State, fn *ssa.Function, args []*Val) *Val {
 		}
 	}
 	if x.pureCache == nil {
-		x.pureCache = map[string]*Val{}
+		x.pureCache = map[string]*pureEntry{}
 	}
-	if v, ok := x.pureCache[key]; ok {
-		return v
+	if e, ok := x.pureCache[key]; ok {
+		pureStats[fn.String()+" hit"]++
+		// the state object only gained facts since (same id and version): the result is still valid; the state
+		// whose queries will use it (another exit, for old(...) expressions) needs the names and bindings too
+		x.mergePure(s, e.decls, e.facts)
+		return e.v
 	}
-	v := x.evalPure1(s, fn, args)
-	x.pureCache[key] = v
+	pureStats[fn.String()+" miss"]++
+	if os.Getenv("GOVC_STATS") == "2" && pureStats[fn.String()+" miss"] < 6 {
+		fmt.Fprintln(os.Stderr, "MISS", key[:min(len(key), 300)])
+	}
+	v, decls, facts := x.evalPure1(s, fn, args)
+	x.pureCache[key] = &pureEntry{v: v, decls: decls, facts: facts}
 	return v
 }
 
-func (x *Exec) evalPure1(s *State, fn *ssa.Function, args []*Val) *Val {
+type pureEntry struct {
+	v            *Val
+	decls, facts []string
+}
+
+// mergePure adds the declarations and definitional facts of a pure evaluation to s and to the specification sink.
+func (x *Exec) mergePure(s *State, newDecls, newFacts []string) {
+	targets := []*State{s}
+	if x.specSink != nil && x.specSink != s {
+		// evaluated in another state (old(...)): the state whose queries use the result needs the names too
+		targets = append(targets, x.specSink)
+	}
+	for _, tgt := range targets {
+		if len(newDecls) > 0 {
+			seenDecl := map[string]bool{}
+			for _, d := range tgt.decls {
+				seenDecl[d] = true
+			}
+			if seenDecl[newDecls[0]] && seenDecl[newDecls[len(newDecls)-1]] {
+				continue // already merged (declarations and facts travel together)
+			}
+			for _, d := range newDecls {
+				if !seenDecl[d] {
+					seenDecl[d] = true
+					tgt.decls = append(tgt.decls, d)
+				}
+			}
+		}
+		seenFact := map[string]bool{}
+		for _, f := range newFacts {
+			if !seenFact[f] {
+				seenFact[f] = true
+				tgt.assume(f)
+			}
+		}
+	}
+}
+
+func (x *Exec) evalPure1(s *State, fn *ssa.Function, args []*Val) (*Val, []string, []string) {
 	type res struct {
 		cond string
 		v    *Val
@@ -914,35 +962,12 @@ func (x *Exec) evalPure1(s *State, fn *ssa.Function, args []*Val) *Val {
 			newFacts = append(newFacts, implies(c, f))
 		}
 	})
-	targets := []*State{s}
-	if x.specSink != nil && x.specSink != s {
-		// evaluated in another state (old(...)): the state whose queries use the result needs the names too
-		targets = append(targets, x.specSink)
-	}
-	for _, tgt := range targets {
-		seenDecl := map[string]bool{}
-		for _, d := range tgt.decls {
-			seenDecl[d] = true
-		}
-		for _, d := range newDecls {
-			if !seenDecl[d] {
-				seenDecl[d] = true
-				tgt.decls = append(tgt.decls, d)
-			}
-		}
-		seenFact := map[string]bool{}
-		for _, f := range newFacts {
-			if !seenFact[f] {
-				seenFact[f] = true
-				tgt.assume(f)
-			}
-		}
-	}
+	x.mergePure(s, newDecls, newFacts)
 	x.con = saveCon
 	x.obligs = x.obligs[:nobl]
 	if len(rs) == 0 {
 		x.fail("specification call to %s has no result", fn.Name())
-		return x.freshVal(s, rt, "pure")
+		return x.freshVal(s, rt, "pure"), nil, nil
 	}
 	// merge: all paths' extra assumptions are definitional (name bindings) or branch conditions.
 	// Branch conditions select; name bindings are kept as implications.
@@ -952,9 +977,9 @@ func (x *Exec) evalPure1(s *State, fn *ssa.Function, args []*Val) *Val {
 		t = ite(rs[i].cond, x.termOf(s, rs[i].v), t)
 	}
 	if len(rs) == 1 {
-		return out
+		return out, newDecls, newFacts
 	}
-	return x.valOf(s, rt, t)
+	return x.valOf(s, rt, t), newDecls, newFacts
 }
 
 // smtFunResult guesses the Go-level type of a user SMT function from its declaration (sort only matters for Bytes ops).
